@@ -343,6 +343,22 @@ def poisoned_empty(poison):
         torch.empty, torch.Tensor.new_empty = o_empty, o_new
 
 
+def poison_of(case):
+    """What the cells left uninitialised by torch.empty / new_empty hold in the observed run: a token beyond the
+    vocabulary (V + 3) or a NEGATIVE number (audit, round e).  Real uninitialised int64 memory can be anything;
+    the lower halves of the code's `.clamp(0, V - 1)` on `y_prev_last` / `to_match` exist only for such values
+    (a negative index makes `gather` / `one_hot` raise), and the Lean model - tokens are `Nat` - has no
+    counterpart for them, so only the implementation run can exercise them.  A deterministic function of the
+    case (no draw from the generator's stream; replays without the field behave alike)."""
+    if "poison" in case:
+        return int(case["poison"])
+    import json
+    import zlib
+    V = case["V"]
+    h = zlib.crc32(json.dumps(case, sort_keys=True, default=str).encode())
+    return [V + 3, -1, V + 3, -(V + 2)][h % 4]
+
+
 def same_tensor(a, b):
     """bit-for-bit the same values (NaN equal to NaN), same shape and dtype"""
     import torch
@@ -514,7 +530,11 @@ class C05(PropertyCheck):
         "the language model is an arbitrary function of (initial context, prefix) (harness LMs: stateful rolling hash "
         "in several state layouts); its state handling contract (extract_by_src / mix_by_mask) is exercised — the state "
         "every slot is given at every call is compared with the Lean model's routing — the LM itself is not verified",
-        "cells left uninitialised by torch.empty are poisoned with two different values (inside / isolated run)",
+        "cells left uninitialised by torch.empty are poisoned with two different values (inside / isolated run); the "
+        "value of the observed run is beyond the vocabulary (V + 3) or NEGATIVE (-1, -(V + 2)) - the Lean model keeps "
+        "tokens as naturals and 0 in such cells, the lower clamps of the code are exercised on the implementation only; "
+        "caller-given states carry negative junk beyond the valid lengths and as last token of empty / missing prefixes "
+        "(handed to the model as 0, which is what the code's clamp makes of them)",
         "fusion formula: the LM factor (softmax / exp(beta*log_softmax) of the harness LM's scores) is torch's; the Lean "
         "model's lmExt / fuse combines it with the token / blank probabilities and the mixture weight the module carries "
         "AT THE TIME OF THE CALL, and must reproduce ext_probs_t of every real slot (2e-5 / 1e-10)",
@@ -735,18 +755,24 @@ class C05(PropertyCheck):
             slots = real + [None] * (Kp - n_real)
             rng.shuffle(slots)
             y, last, lens, nb, b = [], [], [], [], []
+            # junk: anything an int64 cell may hold, negative numbers included (the documented contract: only
+            # y_prev[:y_prev_lens] is valid, y_prev_last is arbitrary for a prefix of length 0).  Cells INSIDE the
+            # counted length of a slot without a prefix stay non-negative: they are copied to output slots whose
+            # (unspecified) tokens the correspondence still compares with the model, which keeps naturals.
+            wild = lambda: rng.choice([-(V + 3), -2, -1, -1] + list(range(V + 2)))
             for p in slots:
                 junk = [rng.randrange(V + 2) for _ in range(S)]
                 if p is None:
-                    lens.append(rng.randint(0, S))
-                    y.append(junk)
-                    last.append(rng.randrange(V + 2))
+                    ln = rng.randint(0, S)
+                    lens.append(ln)
+                    y.append(junk[:ln] + [wild() for _ in range(S - ln)])
+                    last.append(wild())
                     nb.append("-inf")
                     b.append(rng.choice(["-inf", 0]))
                 else:
                     lens.append(len(p))
-                    y.append(list(p) + junk[len(p):])
-                    last.append(p[-1] if p else rng.randrange(V + 2))
+                    y.append(list(p) + [wild() for _ in range(S - len(p))])
+                    last.append(p[-1] if p else wild())
                     tot = rng.choice([0, 1, 2, 3, 4, 6, 8])
                     x = 0 if not p else rng.randint(0, tot)
                     nb.append(x)
@@ -954,7 +980,7 @@ class C05(PropertyCheck):
             global STATE_LOG
             STATE_LOG = []
             try:
-                with poisoned_empty(V + 3), ctx():
+                with poisoned_empty(poison_of(case)), ctx():
                     y, y_lens, probs = search(logits, lens, *extra)
             finally:
                 _decoding.ctc_prefix_search_advance = saved
@@ -970,7 +996,7 @@ class C05(PropertyCheck):
             obj["mutated"] += [f"{name} (call {i} of ctc_prefix_search_advance)" for i, name in rec.mutated]
             obj["unrepeatable"] = [f"output {j} of call {i} of ctc_prefix_search_advance" for i, j in rec.unrepeatable]
             if y.dim() == 3 and probs.dim() == 2:
-                with poisoned_empty(V + 3), torch.no_grad():
+                with poisoned_empty(poison_of(case)), torch.no_grad():
                     # the same call once more on the same object, and on a module constructed just now
                     again = search(logits.detach(), lens, *make_extra())
                     fresh = CTCPrefixSearch(final["width"], final["beta"], final["lm"], final["valid"])
@@ -1031,7 +1057,7 @@ class C05(PropertyCheck):
             fn = functional.ctc_prefix_search_advance
             rec = Recorder(fn)
             tables = []
-            with poisoned_empty(V + 3), ctx():
+            with poisoned_empty(poison_of(case)), ctx():
                 for t, fr in enumerate(frames):
                     Kp = nb.size(1)
                     prefs = [tuple(int(x) for x in y[: int(lens[0, k]), 0, k].tolist()) for k in range(Kp)]
@@ -1139,7 +1165,7 @@ class C05(PropertyCheck):
                 ex = make_extra if cur["lm"] is final["lm"] else (lambda: ())
                 args = lambda: (lg, lens) + ex()
             obj["calls"] += 1
-            with poisoned_empty(V + 3), torch.no_grad():
+            with poisoned_empty(poison_of(case)), torch.no_grad():
                 a = search(*args())
                 fresh = CTCPrefixSearch(cur["width"], cur["beta"], cur["lm"], cur["valid"])
                 fresh.train(search.training)
@@ -1317,7 +1343,12 @@ class C05(PropertyCheck):
             if init is not None:
                 den = case.get("denom", 16)
                 xs = lambda v: "-inf" if v == "-inf" else frac_str(Fraction(v, den))
-                e["init"] = {"tm1": init["tm1"], "y": init["y"], "last": init["last"], "lens": init["lens"],
+                # the model keeps tokens as naturals: negative junk (beyond the valid lengths / last token of a
+                # slot without tokens) is handed over as 0 - what the lower half of the code's clamp(0, V - 1)
+                # makes of it at every place it is read
+                nat = lambda x: max(0, x)
+                e["init"] = {"tm1": init["tm1"], "y": [[nat(x) for x in col] for col in init["y"]],
+                             "last": [nat(x) for x in init["last"]], "lens": init["lens"],
                              "nb": [xs(v) for v in init["nb"]], "b": [xs(v) for v in init["b"]],
                              "is_prefix": init["is_prefix"]}
             # true mass by enumeration of all (V+1)^T alignments: only while that is small
@@ -1679,6 +1710,10 @@ class C05(PropertyCheck):
         else:
             t.append("no-lm")
         t.append("gen=" + case.get("gen", "base"))
+        t.append("uninitialised cells hold: " + ("a negative number" if poison_of(case) < 0 else "a token beyond the vocabulary"))
+        if case.get("init") and any(x < 0 for col in case["init"]["y"] for x in col) or \
+                case.get("init") and any(x < 0 for x in case["init"]["last"]):
+            t.append("advance:negative junk in the caller's state")
         for wd in case.get("wide") or []:
             t.append("scores:" + {"offset": "large common offset", "spread": "range up to the dtype's exponent range",
                                   "-inf": "label ruled out by -inf"}.get(wd, wd))
@@ -1748,6 +1783,8 @@ class C05(PropertyCheck):
     def shrink(self, case):
         if case.get("expect_error"):
             return
+        if "poison" not in case:    # smaller candidates keep the uninitialised-cell value of the failing run
+            case = dict(case, poison=poison_of(case))
         for fld in ("layout", "lens_layout", "lens_dtype", "grad", "beta_int", "prev_empty", "life"):
             if case.get(fld):
                 c = dict(case)
